@@ -114,22 +114,26 @@ Proof.
       destruct Ha as [->|Ha]; [congruence|auto].
 Qed.
 
-Lemma assigns_shape xs ys a :
+Lemma assigns_shape xs : forall ys a,
   In a (assigns xs ys) -> map fst a = xs /\ forall v, In v (map snd a) -> In v ys.
 Proof.
-  revert a. induction xs as [|x xs IH]; simpl; intros a.
+  induction xs as [|x xs IH]; simpl; intros ys a.
   - intros [<-|[]]. simpl. tauto.
-  - rewrite in_flat_map. intros [a' [Ha' Hin]]. apply in_map_iff in Hin. destruct Hin as [y [<- Hy]].
-    destruct (IH _ Ha') as [E Hv]. simpl. split; [now rewrite E|].
-    intros v [<-|Hvin]; auto.
+  - rewrite in_flat_map. intros [y [Hy Hin]]. apply in_map_iff in Hin. destruct Hin as [a' [<- Ha']].
+    destruct (IH _ _ Ha') as [E Hv]. simpl. split; [now rewrite E|].
+    intros v [<-|Hvin]; [auto|]. apply Hv in Hvin. apply (srem_In N.eqb N.eqb_spec) in Hvin. tauto.
 Qed.
 
-Lemma assigns_complete (f : N -> N) xs ys :
+Lemma assigns_complete (f : N -> N) xs : forall ys,
+  NoDup xs -> (forall x y, In x xs -> In y xs -> f x = f y -> x = y) ->
   (forall x, In x xs -> In (f x) ys) -> In (map (fun x => (x, f x)) xs) (assigns xs ys).
 Proof.
-  induction xs as [|x xs IH]; simpl; intros H; [auto|].
-  apply in_flat_map. exists (map (fun x0 => (x0, f x0)) xs). split; [apply IH; auto|].
-  apply in_map_iff. exists (f x). auto.
+  induction xs as [|x xs IH]; simpl; intros ys Hn Hinj H; [auto|].
+  inversion Hn as [|? ? Hni Hn']; subst.
+  apply in_flat_map. exists (f x). split; [auto|].
+  apply in_map_iff. exists (map (fun x0 => (x0, f x0)) xs). split; [reflexivity|].
+  apply IH; auto. intros x' Hx'. apply (srem_In N.eqb N.eqb_spec). split; [auto|].
+  intros E. assert (x' = x) by (apply Hinj; auto). congruence.
 Qed.
 
 Lemma alookup_graph (f : N -> N) xs x :
@@ -184,7 +188,7 @@ Lemma isob_complete A B : iso A B -> isob A B = true.
 Proof.
   intros [r [Hodd [Hinj Hs]]]. unfold isob. destruct (qseteqb A B); [reflexivity|].
   apply anyb_true. exists (map (fun x => (x, r x)) (bnodes A)). split.
-  - apply assigns_complete. intros x Hx. eapply iso_image_bnode; eauto.
+  - apply assigns_complete; [apply bnodes_NoDup|auto|]. intros x Hx. eapply iso_image_bnode; eauto.
   - unfold try_assign.
     assert (map snd (map (fun x => (x, r x)) (bnodes A)) = map r (bnodes A)) as ->.
     { rewrite map_map. reflexivity. }
